@@ -1,4 +1,4 @@
-import PpciVerif.Proofs.Opt.Align
+import PpciVerif.Proofs.Opt.Subst
 /-!
 # C02 — the optimizer preserves IR behaviour
 
@@ -25,5 +25,31 @@ theorem align_validator_sound_exec (m m' : Module) (h : checkAlign m m' = true) 
     (trace : List Event) (hrun : exec cfg m oracle fname args fuel = .ok ret globals trace) :
     ∃ fuel', exec cfg m' oracle fname args fuel' = .ok ret globals trace :=
   checkAlign_sound h cfg oracle fname args fuel ret globals trace hrun
+
+/-- **SSA equation lemma (DESIGN S6)**, as an invariant of the reference semantics: if every function of the
+    module passes `ssaCheck` (unique definitions; a dominance table closed along CFG edges and antisymmetric;
+    every use dominated by its definition), then in every reachable state, in every activation on the stack,
+    each pure instruction `x := op(a…)` whose definition strictly dominates the activation's program point
+    satisfies `env x = ⟦op⟧(env a…)` — although `x` and the `aᵢ` are re-assigned on every loop iteration. -/
+theorem ssa_equations_invariant (ctx : Ctx) (hm : ∀ f ∈ ctx.mod.funcs, ssaCheck f (computeDoms f) = true)
+    (s t : State) (hs : StateOK ctx s) (hstep : step ctx s = .next t) : StateOK ctx t :=
+  inv_step (fun f hf => ssaCheck_facts (hm f hf)) hs hstep
+
+theorem ssa_equations_initial (ctx : Ctx) (hm : ∀ f ∈ ctx.mod.funcs, ssaCheck f (computeDoms f) = true)
+    (fname : String) (args : List Val) (s : State) (h : initState ctx fname args = .ok s) : StateOK ctx s :=
+  initState_ok (fun f hf => ssaCheck_facts (hm f hf)) h
+
+/-- **substitution validator** (what `CommonSubexpressionEliminationPass` does, and the `replace_by` half of
+    `ConstantFolder`): if `m'` is `m` with operands replaced by operands that `checkSubst` can justify from
+    the equations of dominating pure instructions of `m` (same binop on justified-equal operands; equal
+    constants; integer constant expressions with equal value), every defined behaviour is preserved. -/
+theorem subst_validator_sound (m m' : Module) (h : checkSubst m m' = true) (cfg : Config) :
+    Preserves cfg m m' :=
+  checkSubst_sound h cfg
+
+/-- validators compose (constant folding = insert the new constants, then substitute) -/
+theorem validators_compose (m m1 m2 : Module) (h1 : checkAlign m m1 = true) (h2 : checkSubst m1 m2 = true)
+    (cfg : Config) : Preserves cfg m m2 :=
+  (checkAlign_sound h1 cfg).trans (checkSubst_sound h2 cfg)
 
 end Props.C02
